@@ -75,7 +75,11 @@ func (wal *WAL) OnStart() error {
 	if err != nil {
 		return err
 	} else if size == 0 {
-		wal.writeHeight(1)
+		// an empty head is a new log only if no rotated file precedes it: after a rotation the marker of
+		// the current height is in wal.NNN, and "#HEIGHT: 1" behind it would hide it from the search
+		if wal.group.MaxIndex() == 0 {
+			wal.writeHeight(1)
+		}
 	} else if !endsWithNewline(wal.group.Head.Path, size) {
 		// the process died while it was writing its last record: terminate the torn line,
 		// otherwise the next record (or #HEIGHT marker) would be glued to it and be unreadable too
